@@ -117,6 +117,7 @@ pub open spec fn name_token(name: Identifier, offset: usize, ts: Seq<Token>) -> 
     if 0 < end <= ts.len() { Some(ts[end - 1].range) } else { None }
 }
 //@extract lsp4spl/src/features/semantic_tokens.rs :: fn name_token_range
+//@ rewrite range_is_empty
 //@ ret r
 //@ sig
     requires offset + name.info.range.end <= usize::MAX,
